@@ -25,6 +25,10 @@ func init() {
 		Technique: "pairing/must-precede rules over CFG incl. select statements, term equality for the remainder request, arithmetic-safety obligations with inter-procedural non-zero argument proof, loop-variant structure check",
 		Trusted:   "go/types+go/ssa; purity of protobuf getters; container/heap semantics",
 		Run:       runC18,
+		Imports: []Import{
+			{From: "C13.d", Match: "failed-attempt-continues", As: "C18.f", Why: "Get and GetByHeight return the servers' data when the honest trusted peers together hold it: a NOT_FOUND (or any failure) of one lagging peer must not end the request while another peer can still answer"},
+			{From: "C13.d", Match: "all-failed-only-after-every-peer", As: "C18.f", Why: "see failed-attempt-continues"},
+		},
 	})
 }
 
